@@ -83,3 +83,9 @@ check("C15", "exploration", "runtime monitoring: peer-side message history vs. f
       "(hundreds of short sends are counted per run).",
       "Trusted: the kernel's loopback TCP; SO_SNDBUF/SO_RCVBUF shrinking is best effort (the number of short sends actually observed is reported and has a floor).",
       "DESIGN.md section 4 C15")
+check("C16", "exploration", "runtime monitoring: differential execution of the two implementations against identically seeded simulators (complete host byte stream, results, exception classes), in memory and over real sockets",
+      "Every generated scenario, with and without a perturbation (transport fault, silent device, short writes, wire corruption, authentication variants, disconnected use), "
+      "runs once through each implementation; any difference in bytes written, results, exception classes or availability is a violation. The TCP transports are compared over "
+      "real loopback sockets, bare and under a full device session.",
+      "Trusted: simulator determinism for equal seeds; the callback calling conventions of the two APIs.",
+      "DESIGN.md section 4 C16")
